@@ -28,7 +28,7 @@ EXPLANATION = ("The poll / pop functions are loop-free once the queue API is tre
                "path that delivers (or consumes) a completion is required to contain the re-posting add of the slot selected by the "
                "peeked token; stocking loops are found as queue adds inside CFG cycles of the constructors.")
 CONFIGS = ['def', 'alloc', 'def-rel']    # these drivers need the `alloc` feature
-FLOORS = {'exposure_tables': 1, 'post_sites': 2, 'deliver_paths': 3, 'consume_paths': 3, 'stocking_loops': 2, 'users': 3}
+FLOORS = {'exposure_tables': 1, 'post_sites': 1, 'deliver_paths': 1, 'consume_paths': 1, 'stocking_loops': 2, 'users': 3}
 
 
 def run(F, R):
